@@ -908,3 +908,73 @@ Proof.
 Qed.
 
 End AcceptsSound.
+
+(* ---------------------------------------------------------------------------------------------------------- *)
+(* The statements of Props/C12.v, with the run spelled out. *)
+
+Lemma is_reachable : forall W cap early ls s, run W cap early init ls = Some s -> reachable W cap early s.
+Proof. intros. exists ls. assumption. Qed.
+
+Theorem c12_answered_before_close : forall W cap early ls s, run W cap early init ls = Some s ->
+  forall c, cst s c = CClosed -> forall r, unanswered (rs s c r) = false /\ rs s c r <> Lost.
+Proof. intros. eapply answered_before_close; eauto using is_reachable. Qed.
+
+Theorem c12_close_step : forall W cap early ls s l s' c, run W cap early init ls = Some s ->
+  step W cap early s l = Some s' -> cst s c <> CClosed -> cst s' c = CClosed ->
+  (l = LPollClose c \/ l = LRecvClose c) /\ busy s c = [] /\
+  forall r, unanswered (rs s c r) = false /\ rs s' c r = rs s c r.
+Proof. intros. eapply close_step_all_answered; eauto using is_reachable. Qed.
+
+Theorem c12_progress : forall W cap ls s, (0 < cap)%N -> run W cap false init ls = Some s -> alive (ph s) = true ->
+  forall c r, unanswered (rs s c r) = true -> exists l, pipeline_label l /\ step W cap false s l <> None.
+Proof. intros. eapply read_requests_progress; eauto using is_reachable. Qed.
+
+Theorem c12_rank_mono : forall W cap early ls s l s', run W cap early init ls = Some s ->
+  step W cap early s l = Some s' -> forall c r, rank (rs s c r) <= rank (rs s' c r) <= 6.
+Proof.
+  intros. split; [eapply step_rank_mono; eauto using is_reachable|]. destruct (rs s' c r); cbn; lia.
+Qed.
+
+Theorem c12_pipeline_advances : forall W cap early ls s l s', run W cap early init ls = Some s ->
+  step W cap early s l = Some s' -> pipeline_label l ->
+  exists c r, unanswered (rs s c r) = true /\ rank (rs s c r) < rank (rs s' c r).
+Proof. intros. eapply pipeline_step_advances; eauto using is_reachable. Qed.
+
+Definition c12_notification_statement : Prop :=
+  forall W cap early ls s, run W cap early init ls = Some s ->
+  forall c, cst s c = CClosed -> notified s c = true.
+
+Theorem c12_notification_partial : forall W cap early ls s, run W cap early init ls = Some s ->
+  earlypoll s = false -> forall c, cst s c = CClosed -> notified s c = true.
+Proof. intros. eapply closed_after_notification; eauto using is_reachable. Qed.
+
+Theorem c12_notification_refuted : ~ c12_notification_statement.
+Proof.
+  intros H. destruct notification_needs_listener_down as [s [Hr [Hc [Hn _]]]].
+  specialize (H _ _ _ _ _ Hr 0 Hc). congruence.
+Qed.
+
+Theorem c12_close_step_notified : forall W cap early ls s l s' c, run W cap early init ls = Some s ->
+  step W cap early s l = Some s' -> cst s c <> CClosed -> cst s' c = CClosed -> earlypoll s' = false ->
+  notified s c = true.
+Proof. intros. eapply close_step_notified; eauto using is_reachable. Qed.
+
+Theorem c12_all_open_notified : forall W cap early ls s, run W cap early init ls = Some s -> listen s = 2 ->
+  forall c, inmap s c = true -> cst s c <> CClosed -> notified s c = true.
+Proof. intros. eapply all_open_notified; eauto using is_reachable. Qed.
+
+Theorem c12_drained_return_sound : forall W cap early ls s s', run W cap early init ls = Some s ->
+  step W cap early s LPollReturn = Some s' ->
+  ph s' = SRetDrained /\ (forall c, In c (known s') -> cst s' c = CClosed) /\
+  (forall c r, unanswered (rs s' c r) = false).
+Proof. intros. eapply drained_return_sound; eauto using is_reachable. Qed.
+
+Theorem c12_progress_refuted_before_fix :
+  exists ls s, run 1 10 true init ls = Some s /\ alive (ph s) = true /\ unanswered (rs s 0 1) = true /\
+    forall ls' s', run 1 10 true s ls' = Some s' ->
+      rs s' 0 1 = Queued /\ cst s' 0 <> CClosed /\ ph s' <> SRetDrained.
+Proof.
+  destruct progress_refuted_with_early_release as [s [Hr [Hu Hf]]].
+  exists release_before_drain, s. split; auto. split; auto.
+  vm_compute in Hr. inversion Hr. reflexivity.
+Qed.
